@@ -11,10 +11,18 @@ Inductive cact :=
 | CForward (i : nat)                         (* RemoveToxic's flush: head of stub i's input written to its output *)
 | CForwardDrop (i : nat)                     (* the same hand-off given up after 5 s: the chunk is dropped *)
 | CDelete (i : nat)                          (* splice: the stub of the removed toxic goes *)
-| CSever (i : nat).                          (* RemoveToxic of a toxic whose Cleanup closes the stub (timeout): stub.Close()
+| CSever (i : nat)                          (* RemoveToxic of a toxic whose Cleanup closes the stub (timeout): stub.Close()
                                                 closes its output; the stub leaves link.stubs without its neighbour's output
                                                 being re-pointed, so whatever is handed to it from now on reaches nobody. In
                                                 this positional pipeline it stays as a dead stub (Exited, closed). *)
+| CSetTx (i : nat) (tx : toxic)              (* UpdateToxicJson writes the attributes into the shared toxic object (under the lock,
+                                                before it interrupts any stage): from now on the running stage reads the new values *)
+| CFlushRecv (i : nat)                       (* RemoveToxic's flush loop receives, from the unbuffered input of stub i, the chunk
+                                                that stub i-1 is sending: it becomes the loop's tmp (held in the stub's input slot) *)
+| CCloseEnd (i : nat)                        (* the flush loop received nil from the closed, drained input: stub i.Close() *)
+| CInsertAfter (i : nat) (tx : toxic) (eff : bool)   (* AddToxic connects the new stub behind stub i, the last stub of link.stubs
+                                                (dead placeholders of stubs dropped by removeStub may follow it here) *)
+| CInsertDead (i : nat) (tx : toxic).        (* AddToxic on a link whose last stub is closed: the new stub is closed at once *)
 
 Definition listens_interrupt (s : stub) : bool :=
   match mode_of (s_st s) with MSelect _ true _ => true | _ => false end.
@@ -94,6 +102,50 @@ Definition ctl_step (l : link) (a : cact) : option link :=
       else None
     | None => None
     end
+  | CSetTx i tx =>
+    match nth_error (l_stubs l) i with
+    | Some s => Some (upd_stub l i (mkStub tx (s_eff s) (s_st s) (s_ps s) (s_inq s) (s_cap s) (s_in_closed s) (s_closed s)))
+    | None => None
+    end
+  | CFlushRecv i =>
+    match i with
+    | O => None
+    | S j =>
+      match nth_error (l_stubs l) i, nth_error (l_stubs l) j with
+      | Some s, Some sp =>
+        if is_exited s && negb (s_closed s) && (s_cap s =? 0) && (match s_inq s with [] => true | _ => false end) then
+          match mode_of (s_st sp) with
+          | MSend c | MSendT c _ =>
+            let l1 := upd_stub l i (mkStub (s_tx s) (s_eff s) (s_st s) (s_ps s) [c] (s_cap s) (s_in_closed s) (s_closed s)) in
+            Some (stub_sent l1 j sp)
+          | _ => None
+          end
+        else None
+      | _, _ => None
+      end
+    end
+  | CCloseEnd i =>
+    match nth_error (l_stubs l) i with
+    | Some s =>
+      if is_exited s && negb (s_closed s) && s_in_closed s && (match s_inq s with [] => true | _ => false end)
+      then Some (close_downstream
+                   (upd_stub l i (mkStub (s_tx s) (s_eff s) (s_st s) (s_ps s) (s_inq s) (s_cap s) (s_in_closed s) true)) (S i))
+      else None
+    | None => None
+    end
+  | CInsertAfter i tx eff =>
+    if Nat.ltb i (length (l_stubs l)) then
+      let ps := new_pstate tx in
+      let st := mkStub tx eff (init_state (if eff then tx else TNoop) ps (l_now l)) ps [] (buffer_size tx) false false in
+      Some (mkLink (l_now l) (l_src l) (l_rest l) (l_rd l) (firstn (S i) (l_stubs l) ++ st :: skipn (S i) (l_stubs l))
+                   (l_draws l) (l_trace l) (l_sink_closed l) (l_rx l) (l_tx l) (l_sink_delay l) (l_wr_ready l))
+    else None
+  | CInsertDead i tx =>
+    if Nat.ltb i (length (l_stubs l)) then
+      let st := mkStub tx false Exited (new_pstate tx) [] (buffer_size tx) true true in
+      Some (mkLink (l_now l) (l_src l) (l_rest l) (l_rd l) (firstn (S i) (l_stubs l) ++ st :: skipn (S i) (l_stubs l))
+                   (l_draws l) (l_trace l) (l_sink_closed l) (l_rx l) (l_tx l) (l_sink_delay l) (l_wr_ready l))
+    else None
   end.
 
 (** data-path and control actions interleaved arbitrarily *)
